@@ -180,7 +180,7 @@ def worker_main(argv):
 # ------------------------------------------------------------------------------------------------
 # parent side
 # ------------------------------------------------------------------------------------------------
-def run_shards(cid, shards, nproc=None, timeout=1800):
+def run_shards(cid, shards, nproc=None, timeout=1800, mod=None):
     nproc = nproc or int(os.environ.get("RV_NPROC", "0")) or min(16, os.cpu_count() or 4)
     work = os.path.join(env.TMP, f"run-{cid}-{os.getpid()}")
     os.makedirs(work, exist_ok=True)
@@ -228,13 +228,29 @@ def run_shards(cid, shards, nproc=None, timeout=1800):
                     results[i]["log_tail"] = logtxt[-3000:]
                     results[i]["rc"] = rc
                 else:
-                    results[i] = {
+                    res = {
                         "shard": sh.get("name"),
                         "evaluations": 0, "distinct": [], "counters": {}, "maxstats": {}, "samples": [],
                         "violations": [], "notes": [], "wall": time.time() - t0, "rc": rc,
                         "log_tail": logtxt[-6000:],
-                        "inconclusive": [f"worker died rc={rc}: {logtxt[-800:]}"],
+                        "inconclusive": [],
                     }
+                    verdict = None
+                    if mod is not None and hasattr(mod, "classify_death") and rc != "timeout":
+                        try:
+                            verdict = mod.classify_death(sh, rc, logtxt)
+                        except Exception as e:  # pragma: no cover
+                            verdict = {"inconclusive": [f"classify_death failed: {e}"]}
+                    if verdict and verdict.get("violations"):
+                        rec = Recorder(cid, sh)
+                        for v in verdict["violations"]:
+                            rec.violation(v["mech"], v["msg"], {"log": logtxt[-4000:]})
+                        res["violations"] = rec.violations
+                    elif verdict and verdict.get("inconclusive"):
+                        res["inconclusive"] = list(verdict["inconclusive"])
+                    else:
+                        res["inconclusive"] = [f"worker died rc={rc}: {logtxt[-800:]}"]
+                    results[i] = res
     finally:
         for i, (p, *_r) in running.items():
             try:
@@ -357,7 +373,7 @@ def main(argv=None):
     for s in shards:
         s.setdefault("tier", tier)
         s.setdefault("seed", seed)
-    results = run_shards(cid, shards, nproc=a.nproc, timeout=getattr(mod, "SHARD_TIMEOUT", {}).get(tier, 1500))
+    results = run_shards(cid, shards, nproc=a.nproc, timeout=getattr(mod, "SHARD_TIMEOUT", {}).get(tier, 1500), mod=mod)
     wall = time.time() - t0
     evidence, real, knownhits, inconcl = aggregate(cid, mod, tier, seed, results, wall)
     if not a.no_evidence and not a.replay and not a.only:
@@ -370,6 +386,8 @@ def main(argv=None):
         f"{cid} tier={tier} seed={seed}: {cov['evaluations']} executions, {cov['distinct_nontrivial']} distinct "
         f"non-trivial cases, {len(results)} shards, {wall:.1f}s"
     )
+    if os.environ.get("RV_VERBOSE"):
+        print("  shard walls: " + ", ".join(f"{r['shard']}={r['wall']:.0f}s" for r in results))
     if cov["monitor_counters"]:
         print("  monitors: " + ", ".join(f"{k}={v}" for k, v in sorted(cov["monitor_counters"].items())))
     if cov["max_error_over_tolerance"]:
